@@ -37,10 +37,7 @@ pub proof fn axiom_str_len_bound(s: &str)
 // `&s[a..]`, `&s[..b]`, `&s[a..b]` on `str`: vstd states the precondition of `<str as Index<I>>::index`
 // (range in bounds, both ends on char boundaries -- a panic otherwise) but gives it no postcondition;
 // the missing half is vstd's own `index_postcondition` (the result's bytes are that byte sub-range).
-pub assume_specification<I: core::slice::SliceIndex<str>>[ <str as core::ops::Index<I>>::index ](
-    s: &str,
-    i: I,
-) -> (r: &<I as core::slice::SliceIndex<str>>::Output)
+pub assume_specification<I: core::slice::SliceIndex<str>>[ <str as core::ops::Index<I>>::index ](s: &str, i: I) -> (r: &<I as core::slice::SliceIndex<str>>::Output)
     ensures
         vstd::slice::SliceIndexSpec::index_postcondition(&i, s, r),
 ;
@@ -49,6 +46,19 @@ pub assume_specification<I: core::slice::SliceIndex<str>>[ <str as core::ops::In
 // `p` occurs in `s` at char index `k`
 pub open spec fn sp_occurs_at(s: Seq<char>, p: Seq<char>, k: int) -> bool {
     0 <= k && k + p.len() <= s.len() && s.subrange(k, k + p.len()) == p
+}
+
+pub open spec fn sp_has_occ(s: Seq<char>, p: Seq<char>) -> bool {
+    exists|k: int| sp_occurs_at(s, p, k)
+}
+
+// s == a + p + b where this occurrence of p is the FIRST / the LAST one in s
+pub open spec fn sp_is_split_first(s: Seq<char>, p: Seq<char>, a: Seq<char>, b: Seq<char>) -> bool {
+    s == a + p + b && forall|j: int| 0 <= j < a.len() ==> !sp_occurs_at(s, p, j)
+}
+
+pub open spec fn sp_is_split_last(s: Seq<char>, p: Seq<char>, a: Seq<char>, b: Seq<char>) -> bool {
+    s == a + p + b && forall|j: int| a.len() < j ==> !sp_occurs_at(s, p, j)
 }
 
 // first occurrence of a char (char index)
@@ -107,23 +117,15 @@ pub trait VfStrExt {
     // str::split_once(&str): split around the FIRST occurrence of the pattern
     fn vf_split_once_str<'a>(&'a self, pat: &str) -> (r: Option<(&'a str, &'a str)>)
         ensures
-            r is None ==> forall|k: int| !sp_occurs_at(self.vf_view(), pat@, k),
-            r is Some ==> {
-                let (a, b) = r->Some_0;
-                &&& self.vf_view() == a@ + pat@ + b@
-                &&& forall|j: int| 0 <= j < a@.len() ==> !sp_occurs_at(self.vf_view(), pat@, j)
-            },
+            r is None ==> !sp_has_occ(self.vf_view(), pat@),
+            r is Some ==> sp_is_split_first(self.vf_view(), pat@, r->Some_0.0@, r->Some_0.1@),
     ;
 
     // str::rsplit_once(&str): split around the LAST occurrence of the pattern
     fn vf_rsplit_once_str<'a>(&'a self, pat: &str) -> (r: Option<(&'a str, &'a str)>)
         ensures
-            r is None ==> forall|k: int| !sp_occurs_at(self.vf_view(), pat@, k),
-            r is Some ==> {
-                let (a, b) = r->Some_0;
-                &&& self.vf_view() == a@ + pat@ + b@
-                &&& forall|j: int| a@.len() < j ==> !sp_occurs_at(self.vf_view(), pat@, j)
-            },
+            r is None ==> !sp_has_occ(self.vf_view(), pat@),
+            r is Some ==> sp_is_split_last(self.vf_view(), pat@, r->Some_0.0@, r->Some_0.1@),
     ;
 
     // str::trim_end_matches([char; N]): the longest prefix whose last char is not a listed char
